@@ -126,4 +126,13 @@ def check_sat(formula, timeout_ms=10000):
     s.set("timeout", timeout_ms)
     s.add(formula)
     r = s.check()
+    if r == z3.unknown:
+        # a cover (reachability of a precondition) that times out on a loaded machine must not break the check: the three
+        # external solvers get three times the budget before the answer is left undecided
+        try:
+            st, be, secs, raw = run_external(to_smt2(formula), max(30, timeout_ms / 1000 * 3))
+        except Exception:
+            st = "unknown"
+        if st in ("sat", "unsat"):
+            return st, None
     return str(r), (s.model() if r == z3.sat else None)
